@@ -17,11 +17,8 @@ from gambit.sigs.hdf5 import HDF5Signatures
 from xh.taxo import fork_int, NoTracing
 
 P = json.loads(os.environ.get('XH_PARAMS', '{}') or '{}')
-_ROOT = os.path.join(os.path.dirname(os.path.dirname(os.path.abspath(__file__))), 'scratch', f'c12_{os.getpid()}')
-shutil.rmtree(_ROOT, ignore_errors=True)
-os.makedirs(_ROOT)
-import atexit
-atexit.register(lambda: shutil.rmtree(_ROOT, ignore_errors=True))
+from xh import scratchdir
+_ROOT = scratchdir.fresh('c12')
 
 KSPECS = [KmerSpec(1, 'A'), KmerSpec(8, 'ATG'), KmerSpec(11, 'ATGAC'), KmerSpec(16, 'CC'), KmerSpec(17, 'T'), KmerSpec(32, 'ACGTACG')]
 DTYPES = ['u1', 'u2', 'u4', 'u8']
@@ -125,6 +122,11 @@ def roundtrip(cont, idk, mi, ci, ki, di, si):
                 if len(sub) != len(want) or np.dtype(sub.dtype) != np.dtype(dt) or sub.kmerspec != ks or not all(x.dtype == np.dtype(dt) and np.array_equal(x, y) for x, y in zip(sub, want)):
                     return f'slice [{a}:{b}:{c}] gives {[x.tolist() for x in sub]}, expected {[y.tolist() for y in want]}'
             lists = [[], list(range(n)), list(range(n - 1, -1, -1)), [0, 0], [-1, 0, -1], [n - 1] * 3]
+            if n <= 3:
+                lists += [list(t) for t in itertools.product(range(-n, n), repeat=3)]         # every list of three valid indices
+            else:
+                # lists whose ends span exactly their length while the interior is permuted or repeated, plus all orders of four
+                lists += [list(t) for t in itertools.permutations(range(4))] + [[1, 3, 3, 4][:n], [-n, 2, 1, -(n - 3)], [0, 1, 1, 2], [2, 0, 0, 1, 3][:n]]
             for il in lists:
                 for form in (list(il), np.array(il, dtype=np.intp)):
                     sub = back[form]
